@@ -282,6 +282,33 @@ def build() -> Check:
             continue
         ck.ob("R5.through-template", construct, not bad and n_proc > 0,
               (bad[0][1] + ": " + trace_sig(bad[0][0])) if bad else f"{n_proc} process() calls")
+    # R3 the operation map is written by the background thread (checkpoint responses) while user threads read it: a lookup of one key is atomic,
+    # an *iteration* (items / values / comprehension) is not - it raises "dictionary changed size during iteration" when a response is merged
+    # meanwhile, and the replay tracking runs in the `finally` of every operation. Every iteration happens under the map's lock.
+    sc1 = prog.cls("state", "ExecutionState")
+    n_iter = 0
+    for mname1, m1 in sc1.methods.items():
+        if mname1 == "__init__":
+            continue
+        locked = [w for w in ast.walk(m1.node) if isinstance(w, ast.With) and any("_operations_lock" in ast.unparse(i_.context_expr) for i_ in w.items)]
+        for n1 in ast.walk(m1.node):
+            it_expr = None
+            if isinstance(n1, (ast.For, ast.comprehension)):
+                it_expr = n1.iter
+            elif isinstance(n1, ast.Call) and isinstance(n1.func, ast.Name) and n1.func.id in ("list", "dict", "set", "tuple", "sorted", "len", "any", "all") and n1.args:
+                it_expr = n1.args[0] if n1.func.id != "len" else None
+            if it_expr is None:
+                continue
+            txt = ast.unparse(it_expr)
+            if not (txt == "self.operations" or txt.startswith("self.operations.items(") or txt.startswith("self.operations.values(") or txt.startswith("self.operations.keys(")):
+                continue
+            n_iter += 1
+            inside = any(any(n1 is x for x in ast.walk(w)) for w in locked)
+            ck.ob("R3.operations-iterated-under-lock", fn_construct(m1), inside,
+                  f"`{txt}` is iterated without holding _operations_lock: a checkpoint response merged by the background thread in the meantime raises RuntimeError "
+                  "(dictionary changed size during iteration) - from the `finally` of the operation that was being replayed", where=f"line {getattr(n1, 'lineno', getattr(it_expr, 'lineno', 0))}")
+    ck.floor("operation_map_iterations", n_iter, 1)
+
     # the recorded outcome of an operation inside a child body is found by the id drawn from the body's context: a body that is run
     # again (timer re-submission, next invocation) must draw the same ids, i.e. start from a context created for that run
     from sa.common import child_context_escapes
